@@ -265,6 +265,12 @@ class Concatenator(Group):  # pylint: disable=too-many-public-methods
                         new_entity.workspace, **attr_type
                     )
                     new_entity.workspace.save_entity_type(data_type)
+                    # nothing refers to this type object until the copied data are read:
+                    # left registered, its death would make the next clean-up of unused
+                    # types delete the node that the stored records name
+                    new_entity.workspace._types.pop(  # pylint: disable=protected-access
+                        data_type.uid, None
+                    )
 
             new_entity.workspace.fetch_children(new_entity)
             for child in self.children:
